@@ -153,6 +153,13 @@ func defects(w *world, revoked, expired json.RawMessage) []defect {
 		{"missing-audience", func(w *world, s *spec) bool { s.aud = nil; return true }},
 		{"validity-too-long", func(w *world, s *spec) bool { s.validity = time.Hour; return true }},
 		{"expired-presentation", func(w *world, s *spec) bool { s.nbfOff = -10 * time.Minute; return true }},
+		// over-long AND backdated: created long ago, expiring within the next seconds (only the remaining lifetime is short)
+		{"validity-too-long-backdated", func(w *world, s *spec) bool {
+			s.nbfOff = -10 * time.Minute
+			s.validity = 10*time.Minute + 3*time.Second
+			return true
+		}},
+		{"validity-slightly-too-long-backdated", func(w *world, s *spec) bool { s.nbfOff = -8 * time.Second; s.validity = 11 * time.Second; return true }},
 		{"not-yet-valid-presentation", func(w *world, s *spec) bool { s.nbfOff = 10 * time.Minute; return true }},
 		{"missing-nonce", func(w *world, s *spec) bool { s.noNonce = true; return true }},
 		{"signer-not-subject", func(w *world, s *spec) bool { s.signer = w.h2; s.kidOf = nil; return true }},
@@ -178,6 +185,11 @@ func defects(w *world, revoked, expired json.RawMessage) []defect {
 		{"empty-descriptor-map", func(w *world, s *spec) bool { s.noDesc = true; return true }},
 		{"no-credentials", func(w *world, s *spec) bool { s.creds = nil; return true }},
 		{"unknown-scope", func(w *world, s *spec) bool { s.scope = "nonexistent"; return true }},
+		// scope lists for which no definition is configured as a whole (each value alone may be)
+		{"scope-list-known-plus-unknown", func(w *world, s *spec) bool { s.scope = "test admin"; return true }},
+		{"scope-list-unknown-plus-known", func(w *world, s *spec) bool { s.scope = "superuser test"; return true }},
+		{"scope-list-two-known", func(w *world, s *spec) bool { s.scope = "test other"; return true }},
+		{"scope-with-trailing-space", func(w *world, s *spec) bool { s.scope = "test "; return true }},
 		{"scope-needing-other-credential", func(w *world, s *spec) bool {
 			s.scope = "other"
 			s.defID = "pd_other"
